@@ -229,6 +229,37 @@ fn unbounded(framing: &str, v: &DVal) -> Option<SerRes> {
     }
 }
 
+/// `flavseq`: an arbitrary sequence of try_push / try_extend calls on one flavour object, CONTINUING after a
+/// call has failed, then finalize. Returns the answer prefix (compared with the model up to the first error),
+/// whether a call failed, and what finalize gave.
+fn drive_steps<F: Flavor>(mut f: F, steps: &[(bool, Vec<u8>)], fin_after_err: bool) -> (String, bool, Result<Vec<u8>, &'static str>)
+where
+    F::Output: AsRef<[u8]>,
+{
+    let mut s = String::from("ok");
+    let mut failed = false;
+    for (is_push, d) in steps {
+        let r = if *is_push { f.try_push(d[0]) } else { f.try_extend(d) };
+        if r.is_ok() {
+            s.push_str(" s:ok");
+        } else {
+            // a caller that drives Serializer { output } by hand sees the error and then calls finalize (to get
+            // its buffer back / to report how far it got): no further pushes, but finalize must not panic
+            s.push_str(" s:err posterr");
+            failed = true;
+            break;
+        }
+    }
+    if failed && !fin_after_err {
+        // Cobs<B>::finalize after a failed push indexes its placeholder, which may never have been written: on the
+        // UNCHANGED tree that panics. What a flavour does after it has reported an error is outside C05's
+        // statement (DESIGN 8), so it is only observed where the unchanged code is well-behaved (plain storages)
+        return (s, failed, Err("not-finalized"));
+    }
+    let fin = f.finalize().map(|o| o.as_ref().to_vec()).map_err(|e| err_name(&e));
+    (s, failed, fin)
+}
+
 fn push_all<F: Flavor>(mut f: F, m: &[u8]) -> Result<F::Output, postcard::Error> {
     for b in m {
         f.try_push(*b)?;
@@ -379,6 +410,68 @@ pub fn eval(ctx: &mut Ctx, op: &str, args: &[Sexp]) -> Option<String> {
             Some(match r {
                 Err(()) => "FAIL panic in the COBS flavour".into(),
                 Ok(r) => ser_str(&r?),
+            })
+        }
+        "flavseq" => {
+            // flavseq <slice|hvec> <cap> <plain|cobs> <p:HH | e:HEX>*  (C05: a storage flavour driven through the
+            // public Flavor API keeps behaving after it has reported buffer-full: no panic, nothing outside)
+            let storage = args.first()?.atom()?;
+            let cap: usize = args.get(1)?.atom()?.parse().ok()?;
+            let cobs = args.get(2)?.atom()? == "cobs";
+            let mut steps = Vec::new();
+            for a in &args[3..] {
+                let a = a.atom()?;
+                let d = unhex(&format!("x{}", &a[2..]))?;
+                match &a[..2] {
+                    "p:" if d.len() == 1 => steps.push((true, d)),
+                    "e:" => steps.push((false, d)),
+                    _ => return None,
+                }
+            }
+            type R3 = (String, bool, Result<Vec<u8>, &'static str>);
+            let mut outside = false;
+            let r: Result<Option<Result<R3, &'static str>>, ()> = guard(|| match storage {
+                "slice" => {
+                    let mut g = Guarded::new(cap);
+                    let r = if cobs {
+                        Cobs::try_new(Slice::new(g.buf())).map(|f| drive_steps(f, &steps, false)).map_err(|e| err_name(&e))
+                    } else {
+                        Ok(drive_steps(Slice::new(g.buf()), &steps, true))
+                    };
+                    outside = !g.intact();
+                    Some(r)
+                }
+                "hvec" => {
+                    if cobs {
+                        with_cap!(cap, N, Cobs::try_new(HVec::<N>::default()).map(|f| drive_steps(f, &steps, false)).map_err(|e| err_name(&e)))
+                    } else {
+                        with_cap!(cap, N, Ok::<R3, &'static str>(drive_steps(HVec::<N>::default(), &steps, true)))
+                    }
+                }
+                _ => None,
+            });
+            if outside {
+                ctx.oracle_fail("a flavour driven through its public API wrote outside the caller's buffer".into());
+            }
+            Some(match r {
+                Err(()) => "FAIL panic in a storage flavour driven through its public API (calls continued after an error)".into(),
+                Ok(None) => return None,
+                Ok(Some(Err(e))) => format!("err {}", e),
+                Ok(Some(Ok((mut s, failed, fin)))) => {
+                    if failed {
+                        if let Ok(o) = &fin {
+                            if o.len() > cap {
+                                ctx.oracle_fail("finalize after an error returned more bytes than the buffer holds".into());
+                            }
+                        }
+                    } else {
+                        match fin {
+                            Ok(o) => s.push_str(&format!(" fin=ok {}", hex(&o))),
+                            Err(e) => s.push_str(&format!(" fin=err {}", e)),
+                        }
+                    }
+                    s
+                }
             })
         }
         "cobsspec" => {
@@ -775,7 +868,45 @@ fn small_val(r: &mut Rng, i: usize) -> (DTy, DVal) {
     }
 }
 
+/// call sequences on one storage flavour object that go on after buffer-full
+fn gen_flavseq(r: &mut Rng, thorough: bool, out: &mut Vec<String>) {
+    let n = if thorough { 6000 } else { 500 };
+    for i in 0..n {
+        let cap = match i % 7 {
+            0 => [254usize, 255, 256, 257, 258][(i / 7) % 5],
+            _ => r.below(20) as usize,
+        };
+        let storage = if i % 2 == 0 { "slice" } else { "hvec" };
+        let framing = if (i / 2) % 2 == 0 { "plain" } else { "cobs" };
+        let mut used = 0usize;
+        let mut steps = Vec::new();
+        for _ in 0..1 + r.below(8) {
+            let room = cap.saturating_sub(used);
+            if r.chance(1, 3) {
+                steps.push(format!("p:{:02x}", if r.chance(1, 4) { 0 } else { r.next() as u8 }));
+                used += 1;
+            } else {
+                // lengths around what is left: fits exactly, one too many, far too many, and small ones after that
+                let len = match r.below(6) {
+                    0 => room,
+                    1 => room + 1,
+                    2 => room + 1 + r.below(300) as usize,
+                    3 => 0,
+                    _ => r.below(7) as usize,
+                };
+                let d: Vec<u8> = (0..len).map(|_| if r.chance(1, 6) { 0 } else { 1 + r.below(255) as u8 }).collect();
+                steps.push(format!("e:{}", &hex(&d)[1..]));
+                if len <= room {
+                    used += len;
+                }
+            }
+        }
+        out.push(format!("flavseq {} {} {} {}", storage, cap, framing, steps.join(" ")));
+    }
+}
+
 pub fn gen_c05(r: &mut Rng, thorough: bool, out: &mut Vec<String>) {
+    gen_flavseq(r, thorough, out);
     let n = if thorough { 6000 } else { 350 };
     let mut cases: Vec<(DTy, DVal)> = kind_corpus().into_iter().filter(|(_, v)| postcard::to_allocvec(v).map(|b| b.len() <= 30).unwrap_or(false)).collect();
     for i in 0..n {
@@ -1118,6 +1249,12 @@ fn gen_c07_long(r: &mut Rng, thorough: bool, out: &mut Vec<String>) {
                     closed.extend_from_slice(&[0x02, 0x09, 0x00]);
                     out.push(format!("cobsde bytes {}", hex(&closed)));
                 }
+                // the same frame UNTERMINATED (the input ends where the sentinel would be - incl. right after a
+                // full 0xFF block), and with its last byte missing
+                for t in ["bytes", "str", "(seq u8)", "(tuple bytes u8)", "u8"] {
+                    out.push(format!("cobsde {} {}", t, hex(&frame)));
+                }
+                out.push(format!("cobsde bytes {}", hex(&frame[..frame.len() - 1])));
                 frame.push(0);
                 for t in ["bytes", "str", "(seq u8)", "(tuple bytes u8)"] {
                     out.push(format!("cobsde {} {}", t, hex(&frame)));
